@@ -3,6 +3,59 @@
 //!                                              single signature so that it claims lottery index == m (through the
 //!                                              type's own JSON form), aggregates and verifies.
 //!        verif-replay-stm duplicate         -> aggregates [A, B] and [A, A, B] (C02 monotonicity under repetition)
+use std::alloc::{GlobalAlloc, Layout, System};
+use std::sync::atomic::{AtomicUsize, Ordering};
+
+/// Allocator that records the largest single request and refuses requests above 1 GiB (the process then aborts with
+/// std's "memory allocation of N bytes failed", which the driver parses): C05's "peak single-allocation size".
+struct Tracking;
+static MAX_ALLOC: AtomicUsize = AtomicUsize::new(0);
+unsafe impl GlobalAlloc for Tracking {
+    unsafe fn alloc(&self, layout: Layout) -> *mut u8 {
+        MAX_ALLOC.fetch_max(layout.size(), Ordering::Relaxed);
+        if layout.size() > (1 << 30) {
+            return std::ptr::null_mut();
+        }
+        unsafe { System.alloc(layout) }
+    }
+    unsafe fn dealloc(&self, ptr: *mut u8, layout: Layout) {
+        unsafe { System.dealloc(ptr, layout) }
+    }
+    unsafe fn realloc(&self, ptr: *mut u8, layout: Layout, new_size: usize) -> *mut u8 {
+        MAX_ALLOC.fetch_max(new_size, Ordering::Relaxed);
+        if new_size > (1 << 30) {
+            return std::ptr::null_mut();
+        }
+        unsafe { System.realloc(ptr, layout, new_size) }
+    }
+}
+#[global_allocator]
+static GLOBAL: Tracking = Tracking;
+
+fn decode(which: &str, hex: &str) -> String {
+    let bytes: Vec<u8> = (0..hex.len() / 2).map(|i| u8::from_str_radix(&hex[2 * i..2 * i + 2], 16).unwrap()).collect();
+    MAX_ALLOC.store(0, Ordering::Relaxed);
+    std::panic::set_hook(Box::new(|_| {}));
+    let r = std::panic::catch_unwind(|| match which {
+        "aggregate_signature" => mithril_stm::AggregateSignature::<D>::from_bytes(&bytes).is_ok(),
+        "single_signature_with_registered_party" => mithril_stm::SingleSignatureWithRegisteredParty::from_bytes::<D>(&bytes).is_ok(),
+        "single_signature" => SingleSignature::from_bytes::<D>(&bytes).is_ok(),
+        "initializer" => Initializer::from_bytes(&bytes).is_ok(),
+        "parameters" => Parameters::from_bytes(&bytes).is_ok(),
+        "aggregate_verification_key" => mithril_stm::AggregateVerificationKeyForConcatenation::<D>::from_bytes(&bytes).is_ok(),
+        _ => panic!("unknown decoder"),
+    });
+    let m = MAX_ALLOC.load(Ordering::Relaxed);
+    match r {
+        Ok(true) => format!("ok max_alloc={}", m),
+        Ok(false) => format!("err max_alloc={}", m),
+        Err(e) => {
+            let msg = e.downcast_ref::<String>().cloned().or_else(|| e.downcast_ref::<&str>().map(|s| s.to_string())).unwrap_or_default();
+            format!("panic ({}) max_alloc={}", msg, m)
+        }
+    }
+}
+
 use mithril_stm::{
     AggregateSignatureType, AncillaryGenesisData, AncillaryProofInput, Clerk, Initializer, KeyRegistration, MithrilMembershipDigest,
     Parameters, RegistrationEntry, Signer, SingleSignature,
@@ -204,6 +257,7 @@ fn main() {
     let out = match a.first().map(|s| s.as_str()) {
         Some("index_at_m") => index_at_m(),
         Some("duplicate") => duplicate(),
+        Some("decode") => decode(&a[1], &a[2]),
         Some("sign_vs_verify") => sign_vs_verify(),
         Some("cross_dup") => cross_dup(),
         Some("uncommitted_leaf") => uncommitted_leaf(),
